@@ -45,8 +45,15 @@ def bool_to_int(expr: str) -> str:
 
 def _float_denominators(expr: sympy.Expr) -> sympy.Expr:
     """Turn integer denominators in a (nested, unevaluated) product into floats"""
-    if expr.is_Pow and expr.base.is_Integer and expr.exp.is_Rational and expr.exp.is_negative:
-        return sympy.Pow(sympy.Float(expr.base), expr.exp, evaluate=False)
+    if (
+        expr.is_Pow
+        and expr.exp.is_Rational
+        and expr.exp.is_negative
+        and expr.base.is_number
+        and expr.base.is_rational
+    ):
+        # The base can be an integer or an unevaluated expression of integers like (1 + 2)
+        return sympy.Pow(expr.base.evalf(17), expr.exp, evaluate=False)
     if expr.is_Mul:
         args = [_float_denominators(arg) for arg in expr.args]
         if any(new is not old for new, old in zip(args, expr.args)):
